@@ -126,6 +126,7 @@ type RunOutput struct {
 	Stubs       []string           `json:"stubs_hit"`
 	Errors      []string           `json:"errors"`
 	ShardWall   map[string]float64 `json:"-"`
+	ForkSites   map[string]int     `json:"-"`
 }
 
 func main() {
@@ -293,6 +294,7 @@ func runOne(o runOpts) (*RunOutput, error) {
 	ro.Inconcl, ro.InconcNotes, ro.UnwindHits = r.Inconclusive, r.InconcNotes, r.UnwindHits
 	ro.AssumeFalse, ro.Outcomes, ro.Samples, ro.Truncated, ro.Steps = r.AssumeFalse, r.Outcomes, r.Samples, r.Truncated, r.Steps
 	ro.WallS = time.Since(t0).Seconds()
+	ro.ForkSites = r.ForkSites
 	for f := range funcs {
 		if strings.Contains(f, repoMod) && !strings.Contains(f, "/internal/vs") && !strings.Contains(f, "/internal/vharn") {
 			ro.FuncsRepo = append(ro.FuncsRepo, strings.ReplaceAll(f, repoMod, "gofakes3"))
@@ -355,6 +357,23 @@ func printSummary(ro *RunOutput) {
 	fmt.Printf("  solver: %d queries %.2fs unknown=%d errors=%d; load %.1fs wall %.1fs\n", ro.Queries, ro.SolverS, ro.SolverUnk, ro.SolverErr, ro.LoadS, ro.WallS)
 	fmt.Printf("  outcomes=%v\n", ro.Outcomes)
 	fmt.Printf("  reached=%v\n", ro.Reached)
+	if len(ro.ForkSites) > 0 {
+		type kv struct {
+			k string
+			n int
+		}
+		var l []kv
+		for k, n := range ro.ForkSites {
+			l = append(l, kv{k, n})
+		}
+		sort.Slice(l, func(i, j int) bool { return l[i].n > l[j].n })
+		for i, x := range l {
+			if i >= 12 {
+				break
+			}
+			fmt.Printf("  forksite %6d %s\n", x.n, x.k)
+		}
+	}
 	if len(ro.KnownSeen) > 0 {
 		fmt.Printf("  known findings seen=%v\n", ro.KnownSeen)
 	}
@@ -381,7 +400,3 @@ func printSummary(ro *RunOutput) {
 	}
 }
 
-func cmdCheck(args []string) {
-	fmt.Fprintln(os.Stderr, "check: not implemented yet")
-	os.Exit(2)
-}
